@@ -440,6 +440,13 @@ func GenSPConfig(txt, attrTxt TextOpts) *rapid.Generator[SPConfig] {
 			c.IdPIssuer = ""
 		}
 		c.AllowMissing = rapid.Bool().Draw(t, "allowMissingAttributes")
+		if rapid.IntRange(0, 7).Draw(t, "patternConfig") == 0 {
+			// configured strings with characters special to glob / regexp / LIKE matching
+			c.ACS = rapid.SampledFrom([]string{"https://sp.example.com/acs?tenant=42", "https://[::1]:8443/acs", "https://sp.example.com/acs."}).Draw(t, "acsPattern")
+			if c.IdPIssuer != "" {
+				c.IdPIssuer = rapid.SampledFrom([]string{"https://idp.example.com/*", "urn:idp:[a-z]", "https://idp.example.com/metadata?x=1"}).Draw(t, "issuerPattern")
+			}
+		}
 		// clock: any instant inside the wide window, any zone
 		base := time.Date(2021, 1, 1, 0, 0, 0, 0, time.UTC).UnixNano()
 		span := int64(18 * 365 * 24 * time.Hour)
